@@ -39,6 +39,15 @@ type ifInfo struct {
 func ifsIn(fd *ast.FuncDecl) []ifInfo {
 	var out []ifInfo
 	ast.Inspect(fd, func(n ast.Node) bool {
+		// a tagless switch is an if / else-if chain
+		if sw, ok := n.(*ast.SwitchStmt); ok && sw.Tag == nil {
+			for _, cl := range sw.Body.List {
+				cc := cl.(*ast.CaseClause)
+				for _, e := range cc.List {
+					out = append(out, ifInfo{&ast.IfStmt{If: cc.Pos(), Cond: e, Body: &ast.BlockStmt{List: cc.Body}}, nows(types.ExprString(e))})
+				}
+			}
+		}
 		if is, ok := n.(*ast.IfStmt); ok {
 			cond := nows(types.ExprString(is.Cond))
 			if is.Init != nil {
@@ -216,10 +225,6 @@ func ruleRefusals(c *Ctx) []Ob {
 	c.guard(s, pkgDefs, "doParseType", "map-value-type", []string{"!ret.V.IsValueType()"}, "non-struct pointer as map value", "map[K]*scalar would be accepted and mis-walked")
 	c.guard(s, pkgDefs, "doParseSlice", "list-element-type", []string{"!rt.V.IsValueType()"}, "non-struct pointer as list/set element", "[]*scalar would be accepted and mis-walked")
 	c.guard(s, pkgDefs, "doParseSlice", "set-or-list", []string{}, "annotation that is neither set nor list", "")
-	for _, tok := range []struct{ fn, key, sub string }{{"doParseType", "map-open", `tk!="<"`}, {"doParseType", "map-colon", `tk!=":"`}, {"doParseType", "map-close", `tk!=">"`},
-		{"doParseSlice", "list-open", `tok!="<"`}, {"doParseSlice", "list-close", `tok!=">"`}} {
-		c.guard(s, pkgDefs, tok.fn, "syntax:"+tok.key, []string{tok.sub}, "broken container syntax ("+tok.key+")", "a syntactically broken annotation would be accepted")
-	}
 	c.guard(s, pkgDefs, "ParseType", "whole-annotation", []string{`tok!=""`}, "tokens after a complete type", "annotations such as list<i32>> or `i32 junk` would be accepted")
 	// IsKeyType / IsValueType truth tables
 	if kfd, kp := c.funcDecl(pkgDefs, "Type.IsKeyType"); kfd != nil {
@@ -813,20 +818,38 @@ func ruleE12(c *Ctx) []Ob {
 		return true
 	})
 	s.check(okSort, "sorted-by-id", c.Pos(rfd.Pos()), "fields are sorted by id", "the resolved fields are not sorted by id before return")
-	// set / list tokens
-	if fd, _ := c.funcDecl(pkgDefs, "doParseSlice"); fd != nil {
-		got := map[string]string{}
-		ast.Inspect(fd, func(n ast.Node) bool {
-			cc, ok := n.(*ast.CaseClause)
-			if !ok || len(cc.List) != 1 || len(cc.Body) == 0 {
-				return true
+	// set / list tokens: rt.T = T_set under tok == "set", T_list under tok == "list" (switch or if chain)
+	if fn := c.SSA[pkgDefs].Func("doParseSlice"); fn != nil {
+		got := map[string]int64{}
+		for _, b := range fn.Blocks {
+			for _, ins := range b.Instrs {
+				st, ok := ins.(*ssa.Store)
+				if !ok {
+					continue
+				}
+				if _, typ, f, ok := fieldOf(st.Addr); !ok || typ != "Type" || f != "T" {
+					continue
+				}
+				v, ok := constInt(st.Val)
+				if !ok {
+					continue
+				}
+				for _, cd := range domConds(b) {
+					bo, ok := cd.V.(*ssa.BinOp)
+					if !ok || !(bo.Op == token.EQL && cd.Truth || bo.Op == token.NEQ && !cd.Truth) {
+						continue
+					}
+					for _, op := range []ssa.Value{bo.X, bo.Y} {
+						if cst, ok := op.(*ssa.Const); ok && cst.Value != nil && cst.Value.Kind() == constant.String {
+							got[constant.StringVal(cst.Value)] = v
+						}
+					}
+				}
 			}
-			if as, ok := cc.Body[0].(*ast.AssignStmt); ok {
-				got[nows(types.ExprString(cc.List[0]))] = nows(types.ExprString(as.Rhs[0]))
-			}
-			return true
-		})
-		s.check(got[`"set"`] == "T_set" && got[`"list"`] == "T_list", "set-list-tokens", c.Pos(fd.Pos()), `"set" -> T_set, "list" -> T_list`, fmt.Sprintf("set/list tokens map to %v", got))
+		}
+		tset, _ := c.constOf(pkgDefs, "T_set")
+		tlist, _ := c.constOf(pkgDefs, "T_list")
+		s.check(got["set"] == tset && got["list"] == tlist && tset != 0, "set-list-tokens", c.Pos(fn.Pos()), `"set" -> T_set, "list" -> T_list`, fmt.Sprintf("set/list tokens map to %v (T_set=%d, T_list=%d)", got, tset, tlist))
 	}
 	// enum upgrade inside the name-match chain
 	if fd, _ := c.funcDecl(pkgDefs, "doParseType"); fd != nil {
